@@ -77,14 +77,25 @@ def prov_pipe(ctx):
             and _field_of_self(a[4], "use_macros") and _field_of_self(a[5], "fnc1_start")
         cwn, szn = [n.split("#")[0] for n in lp[0][1]]
     obs.append(Ob(r, "encode:data", ok, "encode_eci encodes `data` with the builder's own symbol list, modes, macro and FNC1 options", site=site))
+    # a plain move `let mut codewords = data_codewords;` gives the same value another name
+    alias = {s0[1].split("#")[0]: s0[3][1] for s0 in sts if s0[0] == "let" and s0[3][0] == "var"}
+
+    def root(n):
+        k0 = 0
+        while n in alias and k0 < 5:
+            n, k0 = alias[n], k0 + 1
+        return n
+
+    def is_v(e, n):
+        return n is not None and isinstance(e, tuple) and len(e) > 1 and e[0] == "var" and root(e[1]) == root(n)
     ecc = [s for s in sts if s[0] == "let" and s[3][0] == "call" and s[3][1] == "errorcode::encode_error"]
-    ok = len(ecc) == 1 and cwn and is_var(_strip_deref(ecc[0][3][2][0]), cwn) and is_var(ecc[0][3][2][1], szn)
+    ok = len(ecc) == 1 and cwn and is_v(_strip_deref(ecc[0][3][2][0]), cwn) and is_v(ecc[0][3][2][1], szn)
     eccn = ecc[0][1].split("#")[0] if ecc else None
     obs.append(Ob(r, "encode:ecc", ok, "error codewords are computed from exactly the returned data codewords and size", site=site))
-    nd = [s for s in sts if s[0] == "let" and s[3][0] == "call" and s[3][1].endswith("Vec::len") and is_var(s[3][2][0], cwn)]
+    nd = [s for s in sts if s[0] == "let" and s[3][0] == "call" and s[3][1].endswith("Vec::len") and is_v(s[3][2][0], cwn)]
     ext = [(i, x) for i, s in enumerate(sts) for e in T.stmt_exprs(s) for x in T.sx_walk(e)
            if isinstance(x, tuple) and x and x[0] == "call" and x[1].split("::")[-1] in ("extend_from_slice", "extend", "append") and len(x[2]) == 2]
-    ok = len(nd) == 1 and len(ext) == 1 and is_var(ext[0][1][2][0], cwn) and is_var(_strip_deref(ext[0][1][2][1]), eccn) and sts.index(nd[0]) < ext[0][0]
+    ok = len(nd) == 1 and len(ext) == 1 and is_v(ext[0][1][2][0], cwn) and is_v(_strip_deref(ext[0][1][2][1]), eccn) and sts.index(nd[0]) < ext[0][0]
     obs.append(Ob(r, "encode:append", ok, "the error codewords are appended after the data codewords; num_data_codewords is the length before appending", site=site))
     res = sts[-1]
     ok = False
@@ -92,7 +103,7 @@ def prov_pipe(ctx):
         dm = res[1][3][0][1]
         if dm[0] == "adt" and dm[1] == "DataMatrix":
             d = dict(dm[3])
-            ok = is_var(d.get("size"), szn) and is_var(d.get("codewords"), cwn) and nd and is_var(d.get("num_data_codewords"), nd[0][1].split("#")[0])
+            ok = is_v(d.get("size"), szn) and is_v(d.get("codewords"), cwn) and nd and is_v(d.get("num_data_codewords"), nd[0][1].split("#")[0])
     obs.append(Ob(r, "encode:result", ok, "the DataMatrix stores that size, those codewords and that data length", site=site))
     # ---- bitmap / data_codewords
     fn = "DataMatrix::bitmap"
@@ -125,11 +136,37 @@ def prov_sym(ctx):
     ss = [s for s in sts if s[0] == "let" and T.sx_calls(s[3], "GenericDataEncoder::symbol_for")]
     ok = len(ss) == 1
     name = None
+    # symbol_for's body with its parameter: the count handed to first_symbol_big_enough_for, as a function of the argument
+    sf0 = _fn(f, "GenericDataEncoder::symbol_for", r)
+    sfb = f.thir[sf0]
+    sfe = T.sx(sfb["body"], {})
+    sfp = (sfb["params"][1].get("pat") or {}).get("name") if len(sfb["params"]) == 2 else None
+
+    def is_len_cw(x):
+        return isinstance(x, tuple) and x[0] == "call" and x[1].endswith("Vec::len") and _field_of_self(x[2][0], "codewords")
+
+    def needed(arg):
+        """the number of codewords the chosen symbol must hold when symbol_for is called with `arg`: (uses codewords.len(), extra sx)"""
+        if not (sfe[0] == "call" and sfe[1] == SL + "::first_symbol_big_enough_for" and _field_of_self(sfe[2][0], "symbol_list") and sfp):
+            return None
+        n0 = T.subst_sx(sfe[2][1], {sfp: arg})
+        terms = []
+
+        def flat(x):
+            if x[0] == "bin" and x[1] == "Add":
+                flat(x[2])
+                flat(x[3])
+            else:
+                terms.append(x)
+        flat(n0)
+        lens = [x for x in terms if is_len_cw(x)]
+        rest = [x for x in terms if not is_len_cw(x) and x != ("lit", 0)]
+        return (len(lens), rest)
     if ok:
         c = T.sx_calls(ss[0][3], "GenericDataEncoder::symbol_for")[0]
-        ok = is_var(c[2][0], "self") and c[2][1] == ("lit", 0) and any(x[0] == "try" for x in T.sx_walk(ss[0][3]))
+        ok = is_var(c[2][0], "self") and needed(c[2][1]) == (1, []) and any(x[0] == "try" for x in T.sx_walk(ss[0][3]))
         name = ss[0][1].split("#")[0]
-    obs.append(Ob(r, "chosen", ok, "after encoding, the symbol is symbol_for(0) (an error if none is big enough)", site=site))
+    obs.append(Ob(r, "chosen", ok, "after encoding, the symbol is the first of the list with room for exactly the codewords written (symbol_for(0) / symbol_for(codewords.len())), an error if none is big enough", site=site))
     pads = [(i, x) for i, s in enumerate(sts) for e in T.stmt_exprs(s) for x in T.sx_calls(e, "GenericDataEncoder::add_padding")]
     ok = len(pads) == 1 and name and is_var(pads[0][1][2][1], name) and pads[0][0] > sts.index(ss[0])
     obs.append(Ob(r, "padded-to-chosen", ok, "padding fills up to exactly the chosen symbol", site=site))
@@ -159,8 +196,18 @@ def prov_sym(ctx):
     e = T.sx(f.thir[sf]["body"], {})
     ok = e[0] == "call" and e[1] == SL + "::first_symbol_big_enough_for" and _field_of_self(e[2][0], "symbol_list")
     if ok:
-        n = e[2][1]
-        ok = n[0] == "bin" and n[1] == "Add" and any(x[0] == "call" and x[1].endswith("Vec::len") and _field_of_self(x[2][0], "codewords") for x in (n[2], n[3])) and any(is_var(x, "extra_codewords") for x in (n[2], n[3]))
+        # every other caller (symbol_size_left) asks for codewords.len() + its extra
+        others = []
+        for name2, b2 in f.thir.items():
+            if T.canon(name2) == T.canon(cw):
+                continue
+            for c2 in T.calls(b2["body"]):
+                if T.canon(T.callee_of(c2)).endswith("GenericDataEncoder::symbol_for"):
+                    e2 = T.sx(c2, T.let_env(b2["body"]))
+                    nd2 = needed(e2[2][1])
+                    pn2 = [(p_.get("pat") or {}).get("name", "#").split("#")[0] for p_ in b2["params"]]
+                    others.append(nd2 is not None and nd2[0] == 1 and len(nd2[1]) == 1 and nd2[1][0][0] == "var" and nd2[1][0][1] in pn2)
+        ok = bool(others) and all(others)
     obs.append(Ob(r, "symbol_for", ok, "symbol_for(extra) = first symbol of the caller's list with room for codewords.len() + extra (so size is a member of the list)", detail=T.sx_show(e)))
     # symbol_size_left uses the same
     obs += floor(obs, r, 5, "symbol choice obligations")
